@@ -49,6 +49,13 @@ def run(ck):
     ck.run_rule(r12_value_algebra)
     from .c05 import v3_mate_score as v3_mate_scores
     ck.run_rule(v3_mate_scores)
+    # the move-less test of R6 compares the node counter before and after the move loop: it is only sound if every visited
+    # node counts itself before anything can return (C04's X3 placement rule); and the reported first move is the root entry's
+    # move, replayed exactly as stored (C03's line-walk rules)
+    from .c04 import x3_poll_placement
+    from .c03 import s2_s5_line_walk
+    ck.run_rule(x3_poll_placement)
+    ck.run_rule(s2_s5_line_walk)
 
 
 def _params(b):
